@@ -13,7 +13,7 @@ for d in sorted(glob.glob('/verif/seeded/C*')):
     rows.append((name, m.get('property'), summ, own, ' '.join(others) or '-'))
 out = []
 out.append('## 6. Seeded behaviour-breaking changes and which checks report them\n')
-out.append('''Eighty changes, each written by an independent sub-agent that was given only the text
+out.append('''%d changes (three rounds: `<id>-<k>`, `<id>-r2<k>`, `<id>-r3<k>`), each written by an independent sub-agent that was given only the text
 of one property and a scratch worktree (nothing from /verif), each needing something
 specific to manifest (an input class, an aliasing pattern, a build configuration, a
 call order), each building and passing the whole pinned suite, each with a demonstration
@@ -21,7 +21,9 @@ call order), each building and passing the whole pinned suite, each with a demon
 myself in a scratch worktree before filing it under `/verif/seeded/<id>/` (`patch.diff`,
 the demonstration, `meta.json` with the verification log).  None was ever committed to
 /repo.  `scripts/matrix.py` applies each to a scratch copy and runs the quick tier of all
-20 checks; the thorough tier of each check re-runs the ones that concern it.
+20 checks; the thorough tier of each check re-runs the ones that concern it.  From round 2
+on the sub-agents were also given the one-line summaries of the changes already filed for
+their property, so that they would go for other functions and other clauses.
 
 "own" = the check of the property the change was written against reports it; "also" =
 other checks that report it (because the changed routine is reachable from their
@@ -29,7 +31,7 @@ property's code, section 1A "relevance filter" - e.g. a wrong GLV rounding break
 with it every protocol that multiplies by a secret or verifies).
 
 | seed | property | change (abridged) | own | also reported by |
-|---|---|---|---|---|''')
+|---|---|---|---|---|''' % len(rows))
 for r in rows:
     out.append('| %s | %s | %s | %s | %s |' % r)
 n_own = sum(1 for r in rows if r[3] == 'yes')
@@ -47,6 +49,8 @@ served as the regression test):
 | C12-1, C12-r21 | C12 | `byte` arithmetic was modelled over the integers (no wrap-around) | `Trunc` wrapping of unsigned arithmetic narrower than 64 bits |
 | C13-r21 | C13 | `Verify` was checked for its result only | `C13-1/read-only`: no store into memory reachable from the key |
 | C19-r21 | C19 | instruction *selection* was compared, not alignment requirements | `C19-4/alignment`: SSE instructions with memory operands that fault on unaligned addresses need a proven 16-byte alignment |
+| C03-r31 | C03 | `IsYOdd` recomputed Y/Z itself and used the raw Y of a computed identity (0:Y:0); the "coordinate read comes from `rescale`" rule is about reads of a Point's fields and did not see a fresh element | `C03-5/IsYOdd`: the parity test on symbolic coordinates must equal parity(Z = 0 ? 1 : Y/Z), however it is computed; C03 also runs the encoder rule `C06-4` (bytes as functions of X/Z, Y/Z) |
+| C19-r31 | C19 | a software-pipelined SSE2 lookup loads a 16th table entry past the end of the 15-entry table; results are unchanged when the read succeeds | `C19-5/in-bounds/*`: every load and store through a pointer parameter lies inside the pointed-to object (offsets from the assembly interpreter, sizes from the Go prototype) |
 | C19-r22 | C19 (after the relevance filter was added) | reachability was computed in the amd64 configuration only; the portable lookup is the only caller that passes non-0/1 values to `Uint64Equal` | relevance is the union over every loaded build configuration |
 ''')
 s = open('/verif/DESIGN.md').read()
